@@ -505,3 +505,87 @@ func genStream(r *core.Rand) ([]byte, string) {
 	}
 	return append(h, genPayload(r)...), note
 }
+
+// ---------------------------------------------------------------------------------------------
+// regression targets: the input shapes of the repaired defects F5 and F4, enumerated on every run
+// ---------------------------------------------------------------------------------------------
+
+var shortV6 = []string{"::", "::1", "1::", "::2", "a::", "::0", "f::"}
+
+// shortTCP6Lines: every `PROXY TCP6 a b p q\r\n` of at most 24 bytes over the short spellings
+// (22 bytes = the shortest line there is; 22 and 23 are the lengths the old 24-byte optimistic
+// read over-read, 24 is the first it did not).
+func shortTCP6Lines() []string {
+	var out []string
+	for _, a := range shortV6 {
+		for _, b := range shortV6 {
+			for _, pq := range [][2]string{{"1", "2"}, {"0", "9"}, {"10", "2"}, {"1", "20"}} {
+				l := "PROXY TCP6 " + a + " " + b + " " + pq[0] + " " + pq[1] + "\r\n"
+				if len(l) <= 24 {
+					out = append(out, l)
+				}
+			}
+		}
+	}
+	// the 22-byte line with every pair of one-digit ports
+	for p := 0; p < 10; p++ {
+		for q := 0; q < 10; q++ {
+			if l := fmt.Sprintf("PROXY TCP6 :: :: %d %d\r\n", p, q); l != out[0] && l != out[1] {
+				out = append(out, l)
+			}
+		}
+	}
+	return out
+}
+
+// regressFamilies: every listed family byte, AF_UNSPEC with each transport nibble, and unlisted
+// bytes around them.
+var regressFamilies = []byte{0x00, 0x01, 0x02, 0x03, 0x0f, 0x10, 0x11, 0x12, 0x13, 0x1f, 0x20, 0x21, 0x22, 0x23, 0x30, 0x31, 0x32, 0x33, 0x40, 0x41, 0x7f, 0x80, 0x91, 0xa2, 0xf0, 0xff}
+
+func regressConnCases(r *core.Rand) []connCase {
+	var out []connCase
+	payloads := [][]byte{nil, []byte("hello"), []byte("\r\n"), []byte("\r\nX"), []byte("GET / HTTP/1.1\r\nHost: h\r\n\r\n")}
+	for _, l := range shortTCP6Lines() {
+		for _, p := range payloads {
+			stream := append([]byte(l), p...)
+			via := "pipe"
+			if r.Chance(25) {
+				via = "tcp"
+			}
+			cc := connCase{Kind: "conn", Bytes: core.Hex(stream), Via: via, Note: fmt.Sprintf("regress/v1-tcp6-%d", len(l)), Cuts: genCuts(r, len(stream)),
+				First: core.Pick(r, []string{"read", "addr", "write"}), BufLen: uint8(core.Pick(r, []int{0, 6, 63}))}
+			out = append(out, cc)
+			if len(p) > 0 && len(l) <= 23 {
+				// the payload arrives in a later write: an over-reading header read would wait for it
+				out = append(out, connCase{Kind: "conn", Bytes: core.Hex(stream), Via: "tcp", Note: fmt.Sprintf("regress/v1-tcp6-%d/late-payload", len(l)),
+					Cuts: []int{len(l)}, GapUS: 300, First: core.Pick(r, []string{"read", "addr"}), BufLen: 63, Connfu: r.Chance(30)})
+			}
+		}
+	}
+	// one byte short of the shortest line: 21 bytes ending in CRLF cannot be a TCP6 line; the reader
+	// must ask for the 22nd byte before deciding (stream ends: "short"; more follows: scan on)
+	for _, l := range []string{"PROXY TCP6 :: :: 1 2\r\n", "PROXY TCP6 :: :: 0 9\r\n"} {
+		for i := 11; i < 20; i++ {
+			for _, p := range [][]byte{nil, []byte("hello"), []byte("\r\n")} {
+				stream := append([]byte(l[:i]+l[i+1:]), p...)
+				out = append(out, connCase{Kind: "conn", Bytes: core.Hex(stream), Via: "pipe", Note: "regress/v1-tcp6-21", Cuts: genCuts(r, len(stream)),
+					First: core.Pick(r, []string{"read", "addr"}), BufLen: 63})
+			}
+		}
+	}
+	for cmd := 0; cmd < 16; cmd++ {
+		for _, fam := range regressFamilies {
+			for _, n := range []int{0, 1, 2, 12, 36, 216} {
+				body := r.Bytes(n)
+				stream := append(v2Header(byte(0x20|cmd), fam, body, n), genPayload(r)...)
+				via := "pipe"
+				if r.Chance(12) {
+					via = "tcp"
+				}
+				out = append(out, connCase{Kind: "conn", Bytes: core.Hex(stream), Via: via, Note: fmt.Sprintf("regress/v2-cmd%x", cmd), Cuts: genCuts(r, len(stream)),
+					First: core.Pick(r, []string{"read", "addr", "addr", "write"}), BufLen: uint8(core.Pick(r, []int{0, 63})), Connfu: via == "tcp" && r.Chance(30)})
+			}
+		}
+	}
+	return out
+}
